@@ -117,33 +117,48 @@ theorem run_err (parse : Bytes → PR σ) {r : Bytes} (hr : IsRecord r) (he : pa
     rw [List.append_assoc]
     exact congrArg _ (ih (t ++ seg))
 
-/-- a stream whose first byte is not the handshake type is buffered silently forever -/
+/-- a stream whose first byte is not the handshake type: nothing is reported while the header is
+incomplete, and as soon as five bytes are there the buffer is discarded — the reader starts over on
+the remaining segments. -/
 theorem run_not_handshake (parse : Bytes → PR σ) (c : UInt8) (hc : c ≠ 0x16) :
-    ∀ (segs : List Bytes) (b : Bytes), (∀ x ∈ (b ++ segs.flatten).head?, x = c) → (b ≠ [] → b.head? = some c) →
+    ∀ (segs : List Bytes) (b : Bytes), b.length < 5 → (∀ x ∈ (b ++ segs.flatten).head?, x = c) →
       Reader.run parse ({ buffer := b, signature := none } : Reader σ) segs =
-        List.replicate segs.length Out.none := by
+        List.replicate (min (Spec.completionIdx (5 - b.length) segs + 1) segs.length) Out.none
+          ++ Reader.run parse Reader.init (segs.drop (Spec.completionIdx (5 - b.length) segs + 1)) := by
   intro segs
   induction segs with
   | nil => intro b _ _; rfl
   | cons seg rest ih =>
-    intro b hhead _
-    have hstep : ({ buffer := b, signature := none } : Reader σ).addBytes parse seg =
-        ({ buffer := b ++ seg, signature := none }, Out.none) := by
-      unfold Reader.addBytes Reader.addBytesT
-      simp only [Option.isSome_none, Bool.false_eq_true, if_false]
-      by_cases h5 : (b ++ seg).length < readerHdrLen
-      · simp only [h5, ↓reduceIte]
-      · simp only [h5, ↓reduceIte]
+    intro b hb hhead
+    by_cases h5 : (b ++ seg).length < 5
+    · have hstep : ({ buffer := b, signature := none } : Reader σ).addBytes parse seg =
+          ({ buffer := b ++ seg, signature := none }, Out.none) := by
+        unfold Reader.addBytes Reader.addBytesT
+        have : (b ++ seg).length < readerHdrLen := h5
+        simp only [Option.isSome_none, Bool.false_eq_true, if_false, this, ↓reduceIte]
+      have hk : Spec.completionIdx (5 - b.length) (seg :: rest)
+          = Spec.completionIdx (5 - (b ++ seg).length) rest + 1 := by
+        simp only [Spec.completionIdx]
+        have : ¬ (5 - b.length ≤ seg.length) := by simp at h5; omega
+        rw [if_neg this]
+        congr 2
+        simp; omega
+      rw [hk]
+      simp only [Reader.run, hstep, List.length_cons, List.drop_succ_cons]
+      rw [ih (b ++ seg) h5 (by simpa [List.flatten_cons, List.append_assoc] using hhead)]
+      have : min (Spec.completionIdx (5 - (b ++ seg).length) rest + 1 + 1) (rest.length + 1)
+          = min (Spec.completionIdx (5 - (b ++ seg).length) rest + 1) rest.length + 1 := by omega
+      rw [this, List.replicate_succ, List.cons_append]
+    · have hstep : ({ buffer := b, signature := none } : Reader σ).addBytes parse seg =
+          (Reader.init, Out.none) := by
+        unfold Reader.addBytes Reader.addBytesT
+        have h5' : ¬ (b ++ seg).length < readerHdrLen := h5
+        simp only [Option.isSome_none, Bool.false_eq_true, if_false, h5', ↓reduceIte]
         have hne : b ++ seg ≠ [] := by
           intro e; rw [e] at h5; exact h5 (by decide)
         have h0 : (b ++ seg).getD 0 0 = c := by
-          have : (b ++ (seg :: rest).flatten).head? = (b ++ seg).head? := by
-            rw [List.flatten_cons, ← List.append_assoc]
-            cases hbs : b ++ seg with
-            | nil => exact absurd hbs hne
-            | cons x xs => simp
           have hx := hhead
-          rw [this] at hx
+          rw [List.flatten_cons, ← List.append_assoc] at hx
           cases hbs : b ++ seg with
           | nil => exact absurd hbs hne
           | cons x xs =>
@@ -156,18 +171,16 @@ theorem run_not_handshake (parse : Bytes → PR σ) (c : UInt8) (hc : c ≠ 0x16
           have : c.toNat = (0x16 : UInt8).toNat := e
           exact UInt8.toNat_inj.mp this
         rw [h0, if_pos this]
-    simp only [Reader.run, hstep, List.length_cons, List.replicate_succ]
-    refine congrArg _ (ih (b ++ seg) ?_ ?_)
-    · simpa [List.flatten_cons, List.append_assoc] using hhead
-    · intro hne
-      have hx := hhead
-      rw [List.flatten_cons, ← List.append_assoc] at hx
-      cases hbs : b ++ seg with
-      | nil => exact absurd hbs hne
-      | cons x xs =>
-        rw [hbs] at hx
-        simp at hx
-        simp [hx]
+        rfl
+      have hk : Spec.completionIdx (5 - b.length) (seg :: rest) = 0 := by
+        simp only [Spec.completionIdx]
+        have : 5 - b.length ≤ seg.length := by simp at h5; omega
+        rw [if_pos this]
+      rw [hk]
+      simp only [Reader.run, hstep, List.length_cons, List.drop_succ_cons, List.drop_zero, Nat.zero_add]
+      have : min 1 (rest.length + 1) = 1 := by omega
+      rw [this]
+      rfl
 
 end Huginn.Lemmas.TlsReader
 
